@@ -91,6 +91,18 @@ type c18Prof struct {
 	Missing int `json:"missing"`
 	// Alias: kind of the per-part decoys named like a wrong reading of the reference
 	Alias string `json:"alias"`
+	// Chain: shape of the declaration chain (rootfiles of container.xml / order of relationships)
+	Chain string `json:"chain"`
+}
+
+// c18Root is one <rootfile> of META-INF/container.xml (EPUB), in container order.
+type c18Root struct {
+	Media string    `json:"media"` // "opf" | "other"
+	Auth  bool      `json:"auth"`  // the default rendition: the parts' decl/rel/href describe it
+	Dir   []string  `json:"dir"`
+	File  string    `json:"file"`
+	Spine []int     `json:"spine"` // other package documents: the part ids they declare, in order
+	Hrefs []c18Href `json:"hrefs"` // ... and how they refer to them
 }
 
 type c18Case struct {
@@ -98,6 +110,7 @@ type c18Case struct {
 	Base  []string  `json:"base"`
 	Prof  c18Prof   `json:"prof"`
 	Parts []c18Part `json:"parts"`
+	Roots []c18Root `json:"roots"`
 	Pages []int     `json:"pages"`
 	Count int       `json:"count"`
 }
@@ -145,7 +158,7 @@ const c18NavTok = 92 // shown only inside the EPUB navigation document
 func c18Members(c *c18Case) ([]ooxmlw.Member, string) {
 	switch c.Fmt {
 	case "xlsx":
-		wb := &ooxmlw.XWorkbook{Extras: c.Prof.Extras, InfraFirst: c.Prof.Infra}
+		wb := &ooxmlw.XWorkbook{Extras: c.Prof.Extras, InfraFirst: c.Prof.Infra, RelsInfraFirst: c.Prof.Chain == "infraFirst"}
 		for _, p := range c.Parts {
 			wb.Sheets = append(wb.Sheets, ooxmlw.XSheet{
 				Name: fmt.Sprintf("n%03d", p.ID), SheetID: 20 + p.ID, RID: fmt.Sprintf("rId%d", 3+p.Rel),
@@ -157,7 +170,7 @@ func c18Members(c *c18Case) ([]ooxmlw.Member, string) {
 		}
 		return wb.Members(), ".xlsx"
 	case "pptx":
-		d := &ooxmlw.Deck{Extras: c.Prof.Extras, InfraFirst: c.Prof.Infra}
+		d := &ooxmlw.Deck{Extras: c.Prof.Extras, InfraFirst: c.Prof.Infra, RelsInfraFirst: c.Prof.Chain == "infraFirst"}
 		for _, p := range c.Parts {
 			d.Slides = append(d.Slides, ooxmlw.PSlide{Text: c18Tok(p.ID), SldID: 256 + 2*p.Rel + p.ID*16, RID: fmt.Sprintf("rId%d", 3+p.Rel),
 				PartName: c18NameStr(p.Name), Target: c18HrefStr(p.Href), DeclPos: p.Decl, RelPos: p.Rel, ZipPos: p.Zip + 1, Absent: !p.Present})
@@ -172,6 +185,25 @@ func c18Members(c *c18Case) ([]ooxmlw.Member, string) {
 		for _, p := range c.Parts {
 			b.Chapters = append(b.Chapters, ooxmlw.EChapter{ItemID: fmt.Sprintf("c%d", p.ID), Text: c18Tok(p.ID),
 				PartName: c18NameStr(p.Name), Href: c18HrefStr(p.Href), DeclPos: p.Decl, RelPos: p.Rel, ZipPos: p.Zip + 1, Absent: !p.Present})
+		}
+		for i, r := range c.Roots {
+			full := r.File
+			if len(r.Dir) > 0 {
+				full = strings.Join(r.Dir, "/") + "/" + r.File
+			}
+			switch {
+			case r.Media != "opf":
+				b.Rootfiles = append(b.Rootfiles, ooxmlw.ERootfile{FullPath: full + ".pdf", MediaType: "application/pdf", Dummy: true})
+			case r.Auth:
+				b.Rootfiles = append(b.Rootfiles, ooxmlw.ERootfile{FullPath: b.OPFPath, MediaType: "application/oebps-package+xml"})
+			default:
+				alt := ooxmlw.AltPackage{OPFPath: full + ".opf", Tag: fmt.Sprintf("r%d", i+1)}
+				for k, id := range r.Spine {
+					alt.Spine = append(alt.Spine, ooxmlw.EItem{ItemID: fmt.Sprintf("c%d", id), Href: c18HrefStr(r.Hrefs[k])})
+				}
+				b.Alternates = append(b.Alternates, alt)
+				b.Rootfiles = append(b.Rootfiles, ooxmlw.ERootfile{FullPath: alt.OPFPath, MediaType: "application/oebps-package+xml"})
+			}
 		}
 		return b.Members(), ".epub"
 	}
@@ -340,6 +372,24 @@ func c18Classify(c *c18Case, got []int) (string, string) {
 	if c18Equal(got, want) {
 		return "", ""
 	}
+	// the pages of another package document of the container?
+	present := map[int]bool{}
+	for _, p := range c.Parts {
+		present[p.ID] = p.Present
+	}
+	for i, r := range c.Roots {
+		if r.Media == "opf" && !r.Auth {
+			alt := []int{}
+			for _, id := range r.Spine {
+				if present[id] {
+					alt = append(alt, id)
+				}
+			}
+			if c18Equal(got, alt) {
+				return "chain:other-rootfile", fmt.Sprintf("presented %v is the spine of rootfile %d of container.xml (%s.opf); the default rendition is the first package-document rootfile and declares %v", got, i+1, r.File, want)
+			}
+		}
+	}
 	wantSet := map[int]bool{}
 	for _, id := range want {
 		wantSet[id] = true
@@ -361,6 +411,8 @@ func c18Classify(c *c18Case, got []int) (string, string) {
 			case 71, 72, 73, 74, 75, 76, 77, 78, 79, 80, 81:
 				return "wrong-name:" + c.Prof.Enc, fmt.Sprintf("the undeclared member %q (token %s) is presented: it is what a wrong decoding (%s) of the reference %q denotes; the reference denotes %q",
 					c18PartName(c, id), c18Tok(id), c.Prof.Alias, c18HrefOf(c, id-70), c18PartName(c, id-70))
+			case 93:
+				return "chain:other-rootfile", fmt.Sprintf("token %s belongs to a part only another package document of the container declares", c18Tok(id))
 			case 91:
 				return "leak:not-in-spine", fmt.Sprintf("the manifest item that is not in the spine (token %s) is presented", c18Tok(id))
 			case c18NavTok:
@@ -608,5 +660,5 @@ func c18SelfTest(i int, raw []byte) Result {
 			zord = append(zord, c18NameStr(q.Name))
 		}
 	}
-	return Result{OK: true, Replay: map[string]interface{}{"path": p, "fmt": c.Fmt, "members": ooxmlw.Names(ms), "declared": decl, "ziporder": zord, "absent": absent}}
+	return Result{OK: true, Replay: map[string]interface{}{"path": p, "fmt": c.Fmt, "members": ooxmlw.Names(ms), "declared": decl, "ziporder": zord, "absent": absent, "nroots": len(c.Roots)}}
 }
